@@ -15,6 +15,9 @@
      Heads    ScanHeads(from)
      Lookup   HasTransaction / GetTransactionMeta / GetTransaction / GetTransactionReceipt from head h
      RStart, Read   NewBlockReader(pos).Read() results and the chain a naive subscriber holds afterwards
+     SubStart, SubDrain   the messages (block id, obsolete flag, tx) real websocket subscriptions of api/subscriptions
+              (block, beat, beat2, transfer, event; one Subscriptions handler, shared message caches) delivered until
+              quiet, and what a subscriber dropping obsolete messages holds afterwards
      Process  verdict of consensus (Node.Deliver / Consensus.Process) on a block that is valid except possibly for
               the tx admission rules;   Adopt   verdict of packer flow.Adopt
    All invariants of ChainIndex are evaluated after every event.  Several runs are concatenated; Reset starts one. *)
@@ -54,7 +57,6 @@ AddEv ==
   /\ \A i \in DOMAIN Ev.txs : Ev.txs[i] \in DOMAIN txinfo
   /\ Len(Ev.revs) = Len(Ev.txs) /\ Len(Ev.sers) = Len(Ev.txs)
   /\ Ev.conflicts = ScanConflicts(Ev.num)                       \* what Repository.ScanConflicts answered
-  /\ (Ev.p = best => Ev.asbest)                                  \* environment: a child of best is always better
   /\ Store(Ev.b, Ev.p, Ev.conflicts, Ev.txs, Ev.revs, Ev.sers, Ev.ts, Ev.asbest)
   /\ Ev.best = best'                                             \* BestBlockSummary afterwards
   /\ SeqSet(Ev.heads) = heads' /\ Len(Ev.heads) = Cardinality(heads')
@@ -112,6 +114,34 @@ ReadEv ==
   /\ Read(Ev.r)
   /\ Ev.held = rd'[Ev.r].held
 
+\* ---- api/subscriptions over the same repository (real HTTP/websocket handlers, shared message caches) --------
+\* a websocket subscription of kind block | beat | beat2 | transfer | event was opened at ?pos=
+SubStartEv ==
+  /\ Ev.e = "SubStart"
+  /\ Num(Ev.pos) <= Num(best)                  \* (the handler refuses positions above best: uint32 distance check)
+  /\ StartReader(Ev.r, Ev.pos)
+  /\ Ev.held = rd'[Ev.r].held
+
+\* the logs (one transfer and one event per tx) of a sequence of blocks, and of a stream of block messages
+RECURSIVE LogsOf(_)
+LogsOf(seq) == IF seq = <<>> THEN <<>>
+               ELSE [i \in DOMAIN blocks[Head(seq)].txs |-> [b |-> Head(seq), t |-> blocks[Head(seq)].txs[i]]] \o LogsOf(Tail(seq))
+RECURSIVE ExpandTx(_)
+ExpandTx(out) == IF out = <<>> THEN <<>>
+                 ELSE [i \in DOMAIN blocks[Head(out).b].txs |->
+                          [b |-> Head(out).b, obs |-> Head(out).obs, t |-> blocks[Head(out).b].txs[i]]] \o ExpandTx(Tail(out))
+
+\* everything the subscription delivered until it went quiet (no AddBlock in between), applied by the subscriber
+SubDrainEv ==
+  /\ Ev.e = "SubDrain" /\ Ev.r \in DOMAIN rd
+  /\ LET out == DrainOut(rd[Ev.r].pos, best) IN
+     IF Ev.kind \in {"block", "beat", "beat2"}
+     THEN /\ Ev.out = out                                       \* ids and obsolete flags of the messages, in order
+          /\ Ev.held = Apply(rd[Ev.r].held, out)
+     ELSE /\ Ev.out = ExpandTx(out)                             \* one message per tx of each streamed block
+          /\ Ev.held = LogsOf(Apply(rd[Ev.r].held, out))        \* the logs the subscriber holds
+  /\ Drain(Ev.r)
+
 \* a block that is valid except possibly for the admission of its transactions was given to consensus
 ProcessEv ==
   /\ Query("Process") /\ Ev.p \in Known
@@ -126,7 +156,7 @@ AdoptEv ==
 
 Next == /\ l <= Len(Trace) /\ l' = l + 1
         /\ (ResetEv \/ TxEv \/ AddEv \/ ByNumEv \/ HasBlkEv \/ ExclEv \/ TsEv \/ HeadsEv \/ LookupEv
-            \/ RStartEv \/ ReadEv \/ ProcessEv \/ AdoptEv)
+            \/ RStartEv \/ ReadEv \/ SubStartEv \/ SubDrainEv \/ ProcessEv \/ AdoptEv)
 Spec == Init /\ [][Next]_tvars
 
 \* invariants quantify over every known block while the tree is small; afterwards over best, the block just stored and
